@@ -1,11 +1,11 @@
 from pyvc import runner
-from contracts import signing, hashdata
+from contracts import signing, hashdata, messages
 
 PID = 'C11'
 
 
 def items():
-    return [s for s in signing.scenarios() if PID in s.props] + [s for s in hashdata.scenarios() if 'CanonicalDocument' in s.cid]
+    return [s for s in signing.scenarios() + messages.scenarios() if PID in s.props] + [s for s in hashdata.scenarios() if 'CanonicalDocument' in s.cid]
 
 
 def run(tier='quick', seed=0, only=None):
@@ -19,5 +19,6 @@ def run(tier='quick', seed=0, only=None):
                                assumptions=['regular-expression substitution is the whole mechanism (dash_escape, dash_unescape, CR LF canonicalisation, armor regex): '
                                             'no solver here decides it; the property is decided only over the enumerated texts (bounded stand-in)',
                                             'deductive lemmas only: sign() picks type 0x01 for cleartext messages; hashdata canonicalises with exactly one '
-                                            're.subn(rb"\\r?\\n", b"\\r\\n", subject) and appends the RFC trailer'],
-                               explanation='bounded stand-in (all texts over an adversarial alphabet up to a length bound) + two deductive lemmas')
+                                            're.subn(rb"\\r?\\n", b"\\r\\n", subject) and appends the RFC trailer; the cleartext template (header line, Hash header, '
+                                            'empty line, dash-escaped text, signature block) and PGPMessage.new(cleartext=True)'],
+                               explanation='bounded stand-in (all texts over an adversarial alphabet up to a length bound) + deductive lemmas around the regular expressions')
